@@ -114,7 +114,15 @@ def grid_case(case, res):
     Xb = np.concatenate([eye, 1j * eye], axis=1).astype(dft.CLD)            # N x 2N
     W = dft.dft_matrix(N)
     Wi = dft.dft_matrix(N, +1) / dft.LD(N)
-    for dmv, dm, dmx in dm_objects():
+    # DMs chosen for THIS band: a band-edge delay of a few 1e-7 samples (the ceiling is still one whole sample) and of a whole
+    # number of samples plus 4e-7
+    span1 = dispersion.delay_samples(1, hz(base.min_freq), hz(base.max_freq), srx)
+    special = []
+    for target in (F(2, 10 ** 7), -F(3, 10 ** 7), 3 + F(4, 10 ** 7), -(2 + F(7, 10 ** 7))):
+        v = float(target / span1)
+        special.append((v, pb.DM(v), F(v)))
+        res.hits["band-edge delay a few 1e-7 above a whole sample"] += 1
+    for dmv, dm, dmx in list(dm_objects()) + special:
         for refkind in REFS:
             ref = ref_of(base, refkind)
             refx = hz(base.center_freq) if ref is None else (None if refkind == "inf" else hz(ref))
@@ -398,7 +406,7 @@ def main(argv=None):
         PID, gen_cases=gen_cases, check_case=check_case, describe=describe,
         required_hits=["buffer overwritten between calls", "chirp checked", "|phi| > 1000 cycles (reduction mod 1 matters)",
                        "block shorter than the sweep (empty result)", "cropped on both ends (reference inside band)",
-                       "reference outside the band", "infinite reference frequency", "DM stored in another unit", "dask-backed siblings", "caller modified an earlier chirp", "sample_rate assigned between dedispersions", "wave packet moved by its delay", "DM then -DM"],
+                       "reference outside the band", "infinite reference frequency", "DM stored in another unit", "dask-backed siblings", "caller modified an earlier chirp", "band-edge delay a few 1e-7 above a whole sample", "sample_rate assigned between dedispersions", "wave packet moved by its delay", "DM then -DM"],
         assumptions=["chirp is single precision by design; budget 8 eps32 + 2 pi |phi| 32 eps64 (1 + f_ref/|f - f_ref|) for the "
                      "float64 cancellation in 1/f_ref - 1/f", "Nyquist-bin frequency convention (+-sr/2) left open for even N",
                      "band-edge delays within 1e-9 of an integer leave the crop open"],
